@@ -45,10 +45,21 @@ const (
 )
 
 // LKey is the harness's LinkedKey: identity = ID, hash = uint(ID) (so that ids chosen to be
-// congruent modulo the table sizes collide, and negative ids give extreme hashes).
+// congruent modulo the table sizes collide, and negative ids give extreme hashes) — except
+// for the ids of the twin range [TwinBase, TwinBase+2^32), which hash in groups of four:
+// TwinBase+4j … TwinBase+4j+3 are four DIFFERENT keys with one and the same full hash value
+// (a structure must tell them apart with Equals, not by the stored hash).
 type LKey struct{ ID int64 }
 
-func (k LKey) Hash() uint { return uint(k.ID) }
+// TwinBase is the first id of the twin range (see LKey).
+const TwinBase = int64(1) << 50
+
+func (k LKey) Hash() uint {
+	if k.ID >= TwinBase && k.ID < TwinBase+1<<32 {
+		return uint(TwinBase + (k.ID-TwinBase)>>2)
+	}
+	return uint(k.ID)
+}
 func (k LKey) Equals(o hmap.LinkedKey) bool {
 	x, ok := o.(LKey)
 	return ok && x.ID == k.ID
